@@ -124,15 +124,42 @@ impl TvfsBuilder {
             })
             .collect();
 
-        // First pass: estimate CFT size with minimum offs sizes
-        let est_entry_size_estimate = header.cft_entry_size();
-        let cft_size_estimate = (cft_entries.len() * est_entry_size_estimate) as u32;
-        header.cft_table_size = cft_size_estimate;
+        // The entry size depends on the offset widths of the EST and of the CFT
+        // itself, so the EST size has to be known first ...
+        let est_table = if (self.flags & TVFS_FLAG_ENCODING_SPEC) != 0 && !self.est_specs.is_empty()
+        {
+            let mut est = EstTable::new();
+            for spec in &self.est_specs {
+                est.add_spec(spec.clone());
+            }
+            Some(est)
+        } else {
+            None
+        };
 
-        // Now recompute with correct offs sizes
-        let entry_size = header.cft_entry_size();
-        let cft_size = (cft_entries.len() * entry_size) as u32;
-        header.cft_table_size = cft_size;
+        let est_data = est_table.as_ref().map(|est| {
+            let mut buf = Vec::new();
+            for spec in &est.specs {
+                buf.extend_from_slice(spec.as_bytes());
+                buf.push(0);
+            }
+            buf
+        });
+        if let Some(ref est) = est_data {
+            header.est_table_size = Some(est.len() as u32);
+        }
+
+        // ... and the CFT size is iterated to its fixed point (a wider offset makes
+        // the entries larger, which can make the offset wider once more)
+        let mut entry_size = header.cft_entry_size();
+        loop {
+            header.cft_table_size = (cft_entries.len() * entry_size) as u32;
+            let next = header.cft_entry_size();
+            if next == entry_size {
+                break;
+            }
+            entry_size = next;
+        }
 
         // Assign offsets to CFT entries
         let cft_entries: Vec<ContainerEntry> = cft_entries
@@ -177,27 +204,6 @@ impl TvfsBuilder {
             entries: cft_entries,
         };
         let cft_data = container_table.build(&header);
-
-        // EST
-        let est_table = if (self.flags & TVFS_FLAG_ENCODING_SPEC) != 0 && !self.est_specs.is_empty()
-        {
-            let mut est = EstTable::new();
-            for spec in &self.est_specs {
-                est.add_spec(spec.clone());
-            }
-            Some(est)
-        } else {
-            None
-        };
-
-        let est_data = est_table.as_ref().map(|est| {
-            let mut buf = Vec::new();
-            for spec in &est.specs {
-                buf.extend_from_slice(spec.as_bytes());
-                buf.push(0);
-            }
-            buf
-        });
 
         // Compute table layout: header → path → est(opt) → cft → vfs
         let header_size = header.header_size as u32;
